@@ -246,6 +246,15 @@ func cfCalls(sc *Scenario, toks []cfTok, inner func(string, []SV, *symEval, *sym
 				reg[nid] = seg
 				st.heap[nid+".cursor"], st.heap[nid+".nesting"] = symInt(-1), symInt(0)
 				return symRef(nid, false), true
+			case "NextSegment":
+				// the tokens as values: they travel through appends and maps and come back in NewDispenser
+				seg := d.nextSegment()
+				name := ev.fresh("seg")
+				for i, t := range seg {
+					st.heap[fmt.Sprintf("%s[%d]", name, i)] = SV{K: "tok", Known: true, S: t.text, N: int64(t.line), Desc: fmt.Sprintf("tok(%q@%d)", t.text, t.line)}
+				}
+				l := symInt(int64(len(seg)))
+				return SV{K: "slice", Desc: name, Len: &l, Cap: &l, Known: true}, true
 			case "ArgErr", "Err", "Errf", "SyntaxErr", "EOFErr", "WrapErr":
 				return errV(m), true
 			case "Line":
@@ -259,6 +268,30 @@ func cfCalls(sc *Scenario, toks []cfTok, inner func(string, []SV, *symEval, *sym
 			return SV{}, false
 		}
 		known := func(i int) bool { return i < len(args) && args[i].K == "str" && args[i].Known }
+		switch {
+		case strings.HasSuffix(callee, "caddyfile.NewDispenser") && len(args) == 1 && args[0].Len != nil && args[0].Len.Known:
+			var toks []cfTok
+			for i := int64(0); i < args[0].Len.N; i++ {
+				e, ok := lookupElem(st, args[0].Desc, i)
+				if !ok || e.K != "tok" {
+					return SV{}, false
+				}
+				toks = append(toks, cfTok{e.S, int(e.N)})
+			}
+			nid := ev.fresh("disp")
+			reg[nid] = toks
+			st.heap[nid+".cursor"], st.heap[nid+".nesting"] = symInt(-1), symInt(0)
+			return symRef(nid, false), true
+		case strings.HasSuffix(callee, "caddyfile.UnmarshalModule") && len(args) == 2:
+			// reached only when the module id is not one of this program's modules (see Redirect)
+			return symTuple(symNil(), errV("UnmarshalModule")), true
+		case callee == "encoding/json.Marshal" && len(args) == 1:
+			return symTuple(SV{K: "slice", Known: true, Desc: "json:" + args[0].Desc}, symNil()), true
+		case strings.HasSuffix(callee, "caddyconfig.JSON") && len(args) == 2:
+			return SV{K: "slice", Known: true, Desc: "json:" + args[0].Desc}, true
+		case strings.HasSuffix(callee, "layer4.SetModuleNameInline") && len(args) == 3 && known(0) && known(1):
+			return symTuple(SV{K: "slice", Known: true, Desc: args[2].Desc + "+" + args[0].S + "=" + args[1].S}, symNil()), true
+		}
 		if os.Getenv("L4DEBUG") == "cf" && strings.HasPrefix(callee, "slices.") {
 			fmt.Println("DBG cf", callee, len(args), args)
 		}
@@ -402,6 +435,72 @@ func cfCalls(sc *Scenario, toks []cfTok, inner func(string, []SV, *symEval, *sym
 	}
 }
 
+// cfModules installs the module registry: caddyfile.UnmarshalModule(d, id) for an id registered by this program is
+// the registered type's UnmarshalCaddyfile on a fresh value and the dispenser of the next segment.
+func cfModules(c *Ctx, sc *Scenario) {
+	ids := moduleIDs(c)
+	sc.Redirect = func(callee string, args []SV, ev *symEval, st *symState) (*ssa.Function, []SV, func([]SV, *symState) []SV, bool) {
+		if !strings.HasSuffix(callee, "caddyfile.UnmarshalModule") || len(args) != 2 || args[1].K != "str" || !args[1].Known {
+			return nil, nil, nil, false
+		}
+		t, ok := ids[args[1].S]
+		if !ok {
+			return nil, nil, nil, false
+		}
+		um := c.Prog.LookupMethod(t, nil, "UnmarshalCaddyfile")
+		if um == nil || len(um.Blocks) == 0 {
+			return nil, nil, nil, false
+		}
+		// the dispenser of the next segment, through the model
+		nd, ok := sc.Call(strings.TrimSuffix(callee, "UnmarshalModule")+"Dispenser).NewFromNextSegment", []SV{args[0]}, ev, st)
+		if !ok {
+			return nil, nil, nil, false
+		}
+		obj := SV{K: "addr", Known: true, Desc: ev.fresh("new " + typeStr(deref(t))), DynT: t, Dyn: typeStr(t)}
+		zeroFields(st.heap, obj.Desc, t)
+		wrap := func(rets []SV, _ *symState) []SV {
+			if len(rets) == 1 && rets[0].K == "ref" && rets[0].Known && rets[0].Nil {
+				return []SV{obj, symNil()}
+			}
+			if len(rets) == 1 {
+				return []SV{symNil(), rets[0]}
+			}
+			return rets
+		}
+		return um, []SV{obj, nd}, wrap, true
+	}
+}
+
+// moduleIDs: the caddy module id of every module type of the program, read from its CaddyModule method.
+func moduleIDs(c *Ctx) map[string]types.Type {
+	out := map[string]types.Type{}
+	for _, fn := range c.Funcs {
+		if fn.Name() != "CaddyModule" || fn.Signature.Recv() == nil {
+			continue
+		}
+		for _, b := range fn.Blocks {
+			for _, in := range b.Instrs {
+				st, ok := in.(*ssa.Store)
+				if !ok {
+					continue
+				}
+				fa, ok := st.Addr.(*ssa.FieldAddr)
+				if !ok || fieldName(deref(fa.X.Type()), fa.Field) != "ID" {
+					continue
+				}
+				if id, ok := constString(st.Val); ok {
+					t := fn.Signature.Recv().Type()
+					if _, isPtr := t.(*types.Pointer); !isPtr {
+						t = types.NewPointer(t)
+					}
+					out[id] = t
+				}
+			}
+		}
+	}
+	return out
+}
+
 // zeroFields fills the heap with the zero values of the fields of the struct behind recv (the unmarshaller starts
 // from a fresh module value).
 func zeroFields(h map[string]SV, recv string, t types.Type) {
@@ -448,6 +547,21 @@ func renderHeap(h map[string]SV, st *symState, v SV) string {
 			parts = append(parts, strconv.Quote(k)+":"+renderHeap(h, st, mv.MS[k]))
 		}
 		return "map[" + strings.Join(parts, " ") + "]"
+	}
+	if strings.HasPrefix(v.Desc, "json:") {
+		// the JSON encoding of a configuration object: shown as the object (with what was set inline)
+		obj, suffix := strings.TrimPrefix(v.Desc, "json:"), ""
+		if i := strings.Index(obj, "+"); i >= 0 {
+			obj, suffix = obj[:i], obj[i:]
+		}
+		t := strings.TrimPrefix(obj, "new ")
+		if i := strings.LastIndex(t, "#"); i >= 0 {
+			t = t[:i]
+		}
+		if i := strings.LastIndex(t, "."); i >= 0 {
+			t = t[i+1:]
+		}
+		return t + renderHeap(h, st, SV{K: "addr", Known: true, Desc: obj}) + suffix
 	}
 	switch v.K {
 	case "str":
@@ -544,6 +658,7 @@ func c15Tables(c *Ctx, r *Report, rule string) {
 			}
 			zeroFields(sc.Heap, "m", fn.Signature.Recv().Type())
 			cfCalls(sc, cfTokenize(cs.src), base.Call)
+			cfModules(c, sc)
 			paths, err := evalPaths(fn, sc)
 			if err != nil || len(paths) == 0 {
 				r.bad(rule, tb.fn, key, c.pos(fn.Pos()), fmt.Sprintf("undecided: %v", err))
